@@ -61,6 +61,11 @@ structure Element (α : Type) where
   hasNoData : Bool := false
   /-- `hasattr(el, "__iter__")` (only `Source` looks at it) -/
   hasIter : Bool := false
+  /-- the object is a one-pass iterator (a generator object, `iter(list)`, `map(...)`): values taken from
+  it are gone -/
+  onePass : Bool := false
+  /-- attribute `request` (no code of `Sequence`/`Run` reads it; `Split` classifies tuples by it) -/
+  request : Attr := .absent
   /-- `hasattr(el, "fill_into")` and callable (`FillSeq` uses the element as it is) -/
   fillInto : Attr := .absent
   /-- `hasattr(el, "_can_break_flow")` (`FillInto` may run it value by value) -/
@@ -436,6 +441,9 @@ structure Src (α : Type) where
   first : Element α
   /-- `self._tail`: `()` or a `Sequence` -/
   tail : Option (Seq α)
+  /-- how many values `Source.__init__` took from `first` by iterating it (the code does not iterate it:
+  `mkSource` leaves 0; what a one-pass iterator yields later starts after them) -/
+  consumed : Nat := 0
 
 /-- `Source(*args)` -/
 def mkSource (args : List (Element α)) : Except Exc (Src α) :=
@@ -455,16 +463,23 @@ def mkSource (args : List (Element α)) : Except Exc (Src α) :=
 def Element.sourceFlow (e : Element α) : Except Exc (Strm α) :=
   if e.call then e.genDen else .ok e.iterDen
 
+/-- the flow of the first element when `Source.__call__` takes it: a one-pass iterator yields what
+is left after the values taken at construction -/
+def Src.flow (s : Src α) : Except Exc (Strm α) :=
+  if s.first.call then s.first.genDen
+  else if s.first.onePass then .ok ⟨s.first.iterDen.vals.drop s.consumed, s.first.iterDen.term⟩
+  else .ok s.first.iterDen
+
 /-- `Source.__call__()` -/
 def Src.call (s : Src α) : Except Exc (Strm α) :=
   match s.tail with
   | some t =>
     if t.nargs > 0 then                                      -- `if self._tail:` (`__len__` of `_seq`)
-      match s.first.sourceFlow with
+      match s.flow with
       | .error err => .error err
       | .ok xs => t.run xs
-    else s.first.sourceFlow
-  | none => s.first.sourceFlow
+    else s.flow
+  | none => s.flow
 
 /-! ## specification side: the documented stream transformation of one element -/
 
@@ -525,6 +540,12 @@ inductive Spec where
   | runNoneBad
   /-- instance of a synthetic class with the given attributes -/
   | syn (run : Attr) (call : Bool) (fill compute : Attr) (nodata : Bool)
+  /-- a synthetic class that also has (or has non-callable) `request`, `fill_into`, `reset`,
+  `alter_sequence` -/
+  | synX (run : Attr) (call : Bool) (fill compute : Attr) (nodata : Bool) (request fillInto reset alter : Attr)
+  /-- a one-pass iterator object over `flow` of class `cls` (generator object, `iter(list)`, `map`, `islice`)
+  that raises `term` after its values (first element of a `Source`) -/
+  | iterObj (cls : String) (flow : List Value) (term : Option Exc)
   /-- an object with none of the interfaces (`5`, `"abc"`, `None`) -/
   | junk
   /-- `lena.meta.SetContext(...)`: an element with `_has_no_data` -/
@@ -660,6 +681,16 @@ def Spec.toElement : Spec → Except Exc (Element Value)
     .ok { run := .method, runDen := fun s => .ok (mapS f.call s), asValue := some (objValue "Run") }
   | .runNoneBad => .ok { run := .value, asValue := some (objValue "Run") }
   | .syn r c f cp nd => .ok (synElement r c f cp nd)
+  | .synX r c f cp nd rq fi rs al =>
+    -- `fill_into(element, value)` of the synthetic classes fills `["fi", value]`; `reset`/`alter_sequence`
+    -- are read by no modelled code (only the class name shows them)
+    .ok { (synElement r c f cp nd) with
+          request := rq, fillInto := fi
+          fillIntoDen := fun v => .ok [.list [.str "fi", v]]
+          asValue := some (objValue (s!"Syn_r{attrNum r}_c{if c then 1 else 0}_f{attrNum f}_p{attrNum cp}_n{if nd then 1 else 0}"
+                                      ++ s!"_q{attrNum rq}_i{attrNum fi}_s{attrNum rs}_a{attrNum al}")) }
+  | .iterObj cls flow term =>
+    .ok { hasIter := true, onePass := true, iterDen := ⟨flow, term⟩, asValue := some (objValue cls) }
   | .junk => .ok { asValue := some (objValue "NoneType") }
   | .setContext => .ok { hasNoData := true, asValue := some (objValue "SetContext") }
   | .gen flow => .ok { call := true, callDen := fun _ => .error .typeError, genDen := .ok (.ofList flow)
@@ -726,6 +757,8 @@ def Spec.flat : Spec → List Spec
   | .runNone f => [.runNone f]
   | .runNoneBad => [.runNoneBad]
   | .syn r c f p n => [.syn r c f p n]
+  | .synX r c f p n q i s a => [.synX r c f p n q i s a]
+  | .iterObj c f t => [.iterObj c f t]
   | .junk => [.junk]
   | .setContext => [.setContext]
   | .gen f => [.gen f]
